@@ -465,9 +465,29 @@ func checkC09(p *Program, r *Report) {
 						okSize = k == maxSize
 					}
 				}
+				// any other way of clamping: prove the bounds from the branch facts (if x > max { x = max }, min helpers, …)
+				lcN := NewLinCtx(p, nf)
+				avN := NewAvail(p)
+				lcN.alias = avN.Run(nf)
+				rfN := newRetFacts(p, avN)
+				rfN.install(lcN)
+				prN := NewProver(p, nf, lcN)
+				if !okSize {
+					if ms, ok := c.Call.Args[0].(*ssa.MakeSlice); ok {
+						if okP, _ := prN.Prove(c.Block(), lcN.Lin(ms.Len).addConst(-maxSize)); okP {
+							okSize, howSize = true, "make([]byte, n) with n ≤ limit proved from the branch facts"
+						}
+					}
+				}
 				r.Add("C09.clamp", FnName(nf), "filter size is clamped to the wire limit", c.Pos(), okSize, howSize+fmt.Sprintf(" (limit %d bytes)", maxSize))
 				k, ok := minWith(p, c.Call.Args[1])
-				r.Add("C09.clamp", FnName(nf), "hash-function count is clamped to the wire limit", c.Pos(), ok && k == maxFuncs, fmt.Sprintf("min(·, %d), limit %d", k, maxFuncs))
+				okF, howF := ok && k == maxFuncs, fmt.Sprintf("min(·, %d), limit %d", k, maxFuncs)
+				if !okF {
+					if okP, _ := prN.Prove(c.Block(), lcN.Lin(c.Call.Args[1]).addConst(-maxFuncs)); okP {
+						okF, howF = true, fmt.Sprintf("count ≤ %d proved from the branch facts", maxFuncs)
+					}
+				}
+				r.Add("C09.clamp", FnName(nf), "hash-function count is clamped to the wire limit", c.Pos(), okF, howF)
 			}
 		}
 	} else {
